@@ -41,6 +41,7 @@ type Op struct {
 	R    int    `json:"r,omitempty"`    // present / mut: index of an earlier request (creation order)
 	Pos  int    `json:"pos,omitempty"`  // mut: position selector
 	Hold bool   `json:"hold,omitempty"` // new / mut: create the request but do not present it yet
+	H    int    `json:"h,omitempty"`    // send: index of the held connection (order of the open ops)
 }
 
 type Case struct {
@@ -100,32 +101,63 @@ func classify(err error) string {
 // swallowed error>" when the server returned a request for its fallback address (the cause is read off the
 // server's own log entry; that it is a fallback is read off the returned request).
 func presentBytes(s *ss2022.StreamServer, b []byte, fb bool) (class string, panicked any) {
-	pl, pr := netio.NewPipe()
+	return openConn(s, fb).send(b)
+}
+
+// heldConn: a connection that was handed to HandleStream (instant a) and on which nothing has been written yet;
+// HandleStream is blocked in its first read. send writes the request bytes (instant b >= a) and returns the verdict.
+type heldConn struct {
+	pl, pr *netio.PipeConn
+	fb     bool
+	logs   *observer.ObservedLogs
+	done   chan struct{}
+	req    netio.ConnRequest
+	err    error
+	pan    any
+}
+
+func openConn(s *ss2022.StreamServer, fb bool) *heldConn {
+	h := &heldConn{fb: fb, done: make(chan struct{})}
+	h.pl, h.pr = netio.NewPipe()
+	logger := nopLogger
+	if fb { // only a server with a fallback logs the swallowed error
+		var core zapcore.Core
+		core, h.logs = observer.New(zap.WarnLevel)
+		logger = zap.New(core)
+	}
+	go func() {
+		defer close(h.done)
+		h.pan = common.Safely(func() {
+			h.req, h.err = s.HandleStream(h.pr, logger)
+		})
+	}()
+	return h
+}
+
+// abandon closes a connection on which nothing was ever sent.
+func (h *heldConn) abandon() {
+	h.pl.Close()
+	<-h.done
+	h.pr.Close()
+}
+
+func (h *heldConn) send(b []byte) (class string, panicked any) {
 	var wg sync.WaitGroup
 	wg.Add(1)
 	go func() {
 		defer wg.Done()
 		if len(b) > 0 {
-			pl.Write(b)
+			h.pl.Write(b)
 		}
-		pl.CloseWrite()
+		h.pl.CloseWrite()
 	}()
-	var err error
-	var req netio.ConnRequest
-	logger, logs := nopLogger, (*observer.ObservedLogs)(nil)
-	if fb { // only a server with a fallback logs the swallowed error
-		var core zapcore.Core
-		core, logs = observer.New(zap.WarnLevel)
-		logger = zap.New(core)
-	}
-	panicked = common.Safely(func() {
-		req, err = s.HandleStream(pr, logger)
-	})
-	pr.Close()
-	pl.Close()
+	<-h.done
+	h.pr.Close()
+	h.pl.Close()
 	wg.Wait()
-	if panicked != nil {
-		return "panic", panicked
+	req, err := h.req, h.err
+	if h.pan != nil {
+		return "panic", h.pan
 	}
 	if err == nil && req.PendingConn == nil {
 		return "accept-without-conn", nil
@@ -133,8 +165,8 @@ func presentBytes(s *ss2022.StreamServer, b []byte, fb bool) (class string, pani
 	if err == nil && req.Addr.Equals(fallbackAddr) {
 		cause := "?"
 		var entries []observer.LoggedEntry
-		if logs != nil {
-			entries = logs.All()
+		if h.logs != nil {
+			entries = h.logs.All()
 		}
 		for _, e := range entries {
 			for _, f := range e.Context {
@@ -220,10 +252,35 @@ func runHistory(t *testing.T, c Case, reuse []*Built, skip map[int]bool) (res ru
 			salts[s] = len(salts) + 1
 			return len(salts)
 		}
+		var helds []*heldConn
+		used := map[int]bool{}
+		defer func() {
+			for hi, h := range helds {
+				if !used[hi] {
+					h.abandon()
+				}
+			}
+		}()
 		for i, op := range c.Ops {
 			var b *Built
 			idx := -1
+			var held *heldConn
 			switch op.Op {
+			case "open":
+				// HandleStream starts now and blocks in its first read; the request arrives with a later `send`
+				helds = append(helds, openConn(srv, c.Cfg.Fallback))
+				synctest.Wait()
+				continue
+			case "send":
+				if op.R < 0 || op.R >= len(res.built) || op.H < 0 || op.H >= len(helds) || used[op.H] {
+					res.err = fmt.Errorf("op %d: bad send (request %d, connection %d)", i, op.R, op.H)
+					return
+				}
+				b, idx = res.built[op.R], op.R
+				if !skip[i] {
+					held = helds[op.H]
+					used[op.H] = true
+				}
 			case "adv":
 				if op.D < 0 {
 					res.err = fmt.Errorf("op %d: negative advance", i)
@@ -272,7 +329,13 @@ func runHistory(t *testing.T, c Case, reuse []*Built, skip map[int]bool) (res ru
 				continue
 			}
 			now := time.Now().UnixNano()
-			class, pan := presentBytes(srv, b.Bytes, c.Cfg.Fallback)
+			var class string
+			var pan any
+			if held != nil {
+				class, pan = held.send(b.Bytes)
+			} else {
+				class, pan = presentBytes(srv, b.Bytes, c.Cfg.Fallback)
+			}
 			if pan != nil {
 				res.pan = pan
 			}
